@@ -60,7 +60,11 @@ class H5DataSet:
             # h5py 2.10 in Python2 throws TypeError for out-of-bounds index
             # Let's change it to IndexError
             raise IndexError(te_exc)
-        if data.dtype == util.vlen_str_dtype:
+        if isinstance(data, (bytes, str)):
+            # h5py returns a single element of a variable-length string
+            # dataset as a plain bytes object, not as an array
+            data = np.array(ensure_str(data), dtype=object)
+        elif data.dtype == util.vlen_str_dtype:
             data = np.reshape(np.array(list(map(ensure_str, data.ravel())), dtype=object), data.shape)
         elif data.dtype.fields:
             data = self._convert_string_cols(data)
